@@ -17,7 +17,8 @@
    of the check (query histories with mutation of the results, against a fresh parse); that the heap model
    allocates and shares exactly where CPython/Lark do is the correspondence on the object graph (ids). *)
 From Coq Require Import String List Bool ZArith QArith.
-From DL Require Import Lib.Val Lib.PyDict Decay.Conj Dec.Tables Dec.Syntax Dec.Post Dec.Heap Dec.HeapProofs Dec.HeapValues Dec.HeapRefine.
+From DL Require Import Lib.Val Lib.PyDict Decay.Conj Dec.Tables Dec.Syntax Dec.Post Dec.Heap Dec.HeapProofs Dec.HeapValues Dec.HeapRefine
+  Dec.Layout Dec.ItemParser Dec.FrontEnd Dec.LayoutProofs Dec.ItemParserProofs Dec.FrontEndProofs Dec.Whole Gen.GenLayout.
 Import ListNotations.
 Close Scope Q_scope.
 Open Scope string_scope.
@@ -99,6 +100,23 @@ Theorem C08_object_level_refines_value_model : forall ccdb sc inc f T,
   exists r, parse_heap ccdb sc inc f = inl r /\ tables_of r = Some T.
 Proof. exact parse_heap_refines. Qed.
 Print Assumptions C08_object_level_refines_value_model.
+
+(* END TO END, from the text: s is any spelling of any layout of the statement list f.  If the text is read to tables T (front-end
+   model of C02 followed by the value model), then the object-level algorithm run on the statements the text is read to ends in
+   a state that reads back as exactly T, in which no Token and no Tree object is reachable twice from the decay tables. *)
+Theorem C08_text_level : forall ccdb sc inc f its s T,
+  file_items (lc_kind gen_cfg) (lc_alts gen_cfg) f its -> spell (lc_label gen_cfg) (lc_ws gen_cfg) its s ->
+  params_ok f = true -> parse_dec_text ccdb sc inc s = Some (inl T) ->
+  exists r, option_map (parse_heap ccdb sc inc) (parse_text gen_cfg s) = Some (inl r) /\ tables_of r = Some T /\
+            NoDup (flat_map tok_ids (r_decays r)) /\ NoDup (flat_map node_ids (r_decays r)).
+Proof.
+  intros ccdb sc inc f its s T F Sp Hp H.
+  rewrite (parse_dec_text_layout ccdb sc inc f its s F Sp) in H. injection H as H.
+  destruct (parse_heap_refines ccdb sc inc f T Hp H) as (r & Hr & Ht).
+  exists r. rewrite (parse_text_layout gen_cfg f its s whole_photos_plain F Sp). cbn [option_map]. rewrite Hr.
+  split; [reflexivity|]. split; [exact Ht|]. destruct (C08_tables_share_no_object _ _ _ _ _ Hr) as (N1 & N2 & _). split; assumption.
+Qed.
+Print Assumptions C08_text_level.
 
 (* the CopyDecay law at object level: the tables the CopyDecay pass creates denote (as value trees) the last table named OLD
    with the mother renamed to NEW, and the pass changes what no existing table reads as *)
